@@ -1,12 +1,300 @@
-//! C10: harness not built yet.
+//! C10: a message reaches only its own exchange; unclaimed messages are discarded — unit level on
+//! the real session table, real `Session::post_recv` / `get_exch_for_rx`, real `Exchange` drop, and
+//! the real sweep steps of the transport (`handle_accept_timeout_rx_packet`,
+//! `handle_orphaned_rx_packet`, `handle_dropped_exchange`) under virtual time.
+use crate::proto::{parse_cases, Out};
+use crate::rng::Rng;
 use crate::Args;
 
-pub fn gen(_a: &Args) -> String {
-    eprintln!("C10: harness not built yet");
-    std::process::exit(2);
+#[path = "transport_common.rs"]
+mod tc;
+use tc::{parse_snap, result_of, run_tab_with, GSnap};
+
+const RULE: &str = "a case is one op history on a fresh real session table: 1-4 sessions (secure with installed local ids and plain, distinct peer ports, some expired later), then a state-aware random mix of received messages with every combination of exchange id (live id, live id+-1, allocator position, random) x initiator flag x opcode class (request / standalone ack / status report) x ack (matching, stale, none) x reliability, owner look-ups, accepts (prompt, late, never), Exchange::initiate_for_session, exchange drops at any point (with pending ack / pending retransmission / clean), sends and retransmissions, session removal while exchanges are open, virtual time steps around the 1000 ms accept deadline, accept-timeout / orphan sweeps addressed to live, dropped, unknown exchanges and vanished sessions, and the dropped-exchange closer. Every op line carries the implementation's result and the table snapshot. Non-trivial = at least two distinct output lines; #stat lines give the outcome distribution; distinct = by op list";
+
+struct SInfo {
+    uid: u32,
+    port: u64,
 }
 
-pub fn replay(_a: &Args) -> String {
-    eprintln!("C10: harness not built yet");
-    std::process::exit(2);
+fn gen_case(r: &mut Rng, out: &mut Out, len: usize) {
+    run_tab_with(out, &mut |exec| {
+        let mut g: GSnap = parse_snap(&exec(&format!("setxid {}", r.range(1, 65535))));
+        let mut infos: Vec<SInfo> = Vec::new();
+        let mut next_h = 0u32;
+        let mut handles: Vec<u32> = Vec::new();
+        let mut peer_ctr: u64 = r.range(100, 1 << 30);
+        let mut orig_tx: Vec<(u32, usize, String)> = Vec::new();
+        let nsess = r.range(1, 4);
+        for i in 0..nsess {
+            let port = 5000 + i;
+            let full = exec(&format!("add {} 0 {}", r.below(1 << 32), port));
+            if let Some(id) = result_of(&full).strip_prefix("id ").and_then(|t| t.parse::<u32>().ok()) {
+                if r.chance(3, 4) {
+                    exec(&format!("mode {} {}", id, if r.chance(1, 2) { "c" } else { "p" }));
+                    let sid = result_of(&exec("sid")).to_string();
+                    g = parse_snap(&exec(&format!("lsid {} {}", id, sid)));
+                }
+                infos.push(SInfo { uid: id, port });
+            }
+        }
+        for _ in 0..len {
+            let sess: Vec<u32> = g.sessions.iter().map(|s| s.uid).collect();
+            let pick_sess = |r: &mut Rng| -> u32 { if sess.is_empty() { 0 } else { *r.pick(&sess) } };
+            // (uid, slot, exch id, role, rt, ak)
+            let live: Vec<(u32, usize, u32, String, Option<(u32, u32)>, Option<(u32, bool)>)> = g.sessions.iter()
+                .flat_map(|s| s.slots.iter().enumerate().filter_map(move |(i, sl)| sl.as_ref().map(|sl| (s.uid, i, sl.id, sl.role.clone(), sl.rt, sl.ak)))).collect();
+            let coords = |g: &GSnap, infos: &Vec<SInfo>, uid: u32| -> (u64, u32) {
+                let port = infos.iter().find(|i| i.uid == uid).map(|i| i.port).unwrap_or(1);
+                let lsid = g.sessions.iter().find(|s| s.uid == uid).map(|s| s.lsid).unwrap_or(60000);
+                (port, lsid)
+            };
+            let op: String = match r.below(100) {
+                0..=27 => {
+                    // a received message
+                    let uid = pick_sess(r);
+                    let mine: Vec<_> = live.iter().filter(|l| l.0 == uid).collect();
+                    let (exch, flag): (u64, &str) = match r.below(6) {
+                        0 | 1 if !mine.is_empty() => {
+                            let l = *r.pick(&mine);
+                            // mostly the flag that addresses this exchange, sometimes the other role
+                            let right = if l.3.starts_with('R') { "I" } else { "R" };
+                            let wrong = if right == "I" { "R" } else { "I" };
+                            (l.2 as u64, if r.chance(4, 5) { right } else { wrong })
+                        }
+                        2 if !mine.is_empty() => ((r.pick(&mine).2 as u64 + 65535 + r.below(3)) % 65536, if r.chance(1, 2) { "I" } else { "R" }),
+                        3 => (g.next_xid as u64, if r.chance(1, 2) { "I" } else { "R" }),
+                        _ => (r.range(0, 65535), if r.chance(2, 3) { "I" } else { "R" }),
+                    };
+                    peer_ctr += r.range(1, 2);
+                    let ctr = if r.chance(1, 12) { peer_ctr.saturating_sub(r.range(1, 30)) } else { peer_ctr };
+                    let owner = mine.iter().find(|l| l.2 as u64 == exch && (l.3.starts_with('R') == (flag == "I")));
+                    let ack = match owner.and_then(|l| l.4) {
+                        Some((pc, _)) if r.chance(3, 4) => pc.to_string(),
+                        Some((pc, _)) => (pc as u64 + 1).to_string(),
+                        None => if r.chance(1, 5) { r.below(1 << 28).to_string() } else { "-".into() },
+                    };
+                    format!("rx {} {} {} {} {} {} {}", uid, ctr, exch, flag, ack, if r.chance(2, 3) { "r" } else { "u" },
+                        match r.below(10) { 0 => "a", 1 => "s", _ => "n" })
+                }
+                28..=33 => {
+                    let uid = pick_sess(r);
+                    let mine: Vec<_> = live.iter().filter(|l| l.0 == uid).collect();
+                    let exch = if !mine.is_empty() && r.chance(3, 4) { r.pick(&mine).2 as u64 } else { r.range(0, 65535) };
+                    format!("own {} {} {}", uid, exch, if r.chance(1, 2) { "I" } else { "R" })
+                }
+                34..=40 => {
+                    let pend: Vec<_> = live.iter().filter(|l| l.3 == "RP").collect();
+                    if pend.is_empty() || r.chance(1, 8) {
+                        next_h += 1;
+                        format!("acc {} {} h{}", pick_sess(r), r.below(5), next_h)
+                    } else {
+                        let l = *r.pick(&pend);
+                        next_h += 1;
+                        format!("acc {} {} h{}", l.0, l.1, next_h)
+                    }
+                }
+                41..=46 => {
+                    next_h += 1;
+                    format!("init {} h{}", pick_sess(r), next_h)
+                }
+                47..=55 => {
+                    if handles.is_empty() { "t 20".into() } else { format!("xdrop h{}", *r.pick(&handles)) }
+                }
+                56..=62 => {
+                    let owned: Vec<_> = live.iter().filter(|l| (l.3 == "RO" || l.3 == "IO") && l.4.is_none()).collect();
+                    if owned.is_empty() { "t 5".into() } else {
+                        let l = *r.pick(&owned);
+                        format!("tx {} {} {} - n", l.0, l.1, if r.chance(3, 4) { "r" } else { "u" })
+                    }
+                }
+                63..=66 => if orig_tx.is_empty() { "t 330".into() } else { r.pick(&orig_tx).2.clone() },
+                67..=74 => {
+                    // accept-timeout sweep: mostly on an accept-pending exchange
+                    let pend: Vec<_> = live.iter().filter(|l| l.3 == "RP").collect();
+                    if !pend.is_empty() && r.chance(3, 4) {
+                        let l = *r.pick(&pend);
+                        let (p, ls) = coords(&g, &infos, l.0);
+                        format!("swa {} {} {} I", p, ls, l.2)
+                    } else if !live.is_empty() {
+                        let l = r.pick(&live);
+                        let (p, ls) = coords(&g, &infos, l.0);
+                        format!("swa {} {} {} {}", p, ls, l.2, if l.3.starts_with('R') { "I" } else { "R" })
+                    } else {
+                        format!("swa {} {} {} I", 5000 + r.below(5), r.below(4), r.range(0, 65535))
+                    }
+                }
+                75..=83 => {
+                    // orphan sweep: live / dropped / unknown exchange / vanished session
+                    match r.below(4) {
+                        0 | 1 if !live.is_empty() => {
+                            let dropped: Vec<_> = live.iter().filter(|l| l.3.ends_with('D')).collect();
+                            let l = if !dropped.is_empty() && r.chance(2, 3) { *r.pick(&dropped) } else { r.pick(&live) };
+                            let (p, ls) = coords(&g, &infos, l.0);
+                            format!("swo {} {} {} {}", p, ls, l.2, if l.3.starts_with('R') { "I" } else { "R" })
+                        }
+                        2 if !infos.is_empty() => {
+                            let i = r.pick(&infos);
+                            let (p, ls) = coords(&g, &infos, i.uid);
+                            format!("swo {} {} {} {}", p, ls, r.range(0, 65535), if r.chance(1, 2) { "I" } else { "R" })
+                        }
+                        _ => format!("swo {} {} {} I", 5000 + r.below(6), r.range(0, 65535), r.range(0, 65535)),
+                    }
+                }
+                84..=90 => "swd".into(),
+                91..=92 => format!("exp {}", pick_sess(r)),
+                93 => format!("rm {}", pick_sess(r)),
+                _ => format!("t {}", *r.pick(&[1u64, 100, 500, 999, 1000, 1001, 2000])),
+            };
+            let full = exec(&op);
+            let res = result_of(&full).to_string();
+            g = parse_snap(&full);
+            let w: Vec<&str> = op.split_whitespace().collect();
+            match w[0] {
+                "init" if res.starts_with("x ") => handles.push(next_h),
+                "acc" if res == "ok" => handles.push(next_h),
+                "xdrop" => {
+                    let h: u32 = w[1][1..].parse().unwrap_or(0);
+                    handles.retain(|x| *x != h);
+                }
+                "tx" if res.contains(" rt 0 ") && w[2] != "-" => {
+                    let (uid, slot): (u32, usize) = (w[1].parse().unwrap_or(0), w[2].parse().unwrap_or(0));
+                    orig_tx.retain(|o| !(o.0 == uid && o.1 == slot));
+                    orig_tx.push((uid, slot, op.clone()));
+                }
+                _ => {}
+            }
+            orig_tx.retain(|o| g.sessions.iter().any(|s| s.uid == o.0 && s.slots.get(o.1).and_then(|x| x.as_ref()).map(|sl| sl.rt.is_some()).unwrap_or(false)));
+        }
+    });
+}
+
+/// Policy that lets the first `max` datagrams through and drops the rest: a reply storm between the
+/// nodes (which needs no timer and would never let the simulated clock advance) ends after `max`.
+struct Capped {
+    max: u64,
+}
+impl crate::simnet::Policy for Capped {
+    fn decide(&mut self, _: usize, _: usize, _: &[u8], seq: u64) -> crate::simnet::Verdict {
+        if seq < self.max {
+            crate::simnet::Verdict::Deliver
+        } else {
+            crate::simnet::Verdict::Drop
+        }
+    }
+}
+
+/// `sys` cases: two real `Matter` nodes (transport only, nobody accepts exchanges) on the simulated
+/// network; unsolicited datagrams are injected and the wire is watched.
+///  `inj <from> <to> <hex>`  datagram appears at node `to` as if sent by node `from`  => ok
+///  `run <ms>`               both transports run for `ms` virtual ms  => `sent <by node 0> <by node 1>` (totals so far)
+fn run_sys(out: &mut Out, ops: &[String]) {
+    use crate::simnet::{run_sim, SimNet};
+    use embassy_futures::select::select;
+    use rs_matter::crypto::test_only_crypto;
+    use rs_matter::dm::devices::test::{TEST_DEV_ATT, TEST_DEV_COMM, TEST_DEV_DET};
+    use rs_matter::transport::network::NoNetwork;
+    use rs_matter::Matter;
+
+    embassy_time::MockDriver::get().reset();
+    let net = SimNet::new(2, Box::new(Capped { max: 60 }));
+    let n0 = Box::new(Matter::new(&TEST_DEV_DET, TEST_DEV_COMM, &TEST_DEV_ATT, 0));
+    let n1 = Box::new(Matter::new(&TEST_DEV_DET, TEST_DEV_COMM, &TEST_DEV_ATT, 0));
+    let crypto = test_only_crypto();
+    let s0 = net.socket(0);
+    let s1 = net.socket(1);
+    let mut fut = core::pin::pin!(select(n0.run(&crypto, &s0, &s0, NoNetwork), n1.run(&crypto, &s1, &s1, NoNetwork)));
+    for op in ops {
+        let w: Vec<&str> = op.split_whitespace().collect();
+        let r: String = match w.first().copied().unwrap_or("") {
+            "inj" => {
+                let from: usize = w.get(1).and_then(|t| t.parse().ok()).unwrap_or(1).min(1);
+                let to: usize = w.get(2).and_then(|t| t.parse().ok()).unwrap_or(0).min(1);
+                net.inject(from, to, &crate::proto::unhex(w.get(3).copied().unwrap_or("-")));
+                "ok".into()
+            }
+            "run" => {
+                let ms: u64 = w.get(1).and_then(|t| t.parse().ok()).unwrap_or(100).min(60_000);
+                let _ = run_sim(&net, fut.as_mut(), ms);
+                let log = net.log();
+                format!("sent {} {}", log.iter().filter(|l| l.from == 0).count(), log.iter().filter(|l| l.from == 1).count())
+            }
+            _ => "bad".into(),
+        };
+        out.stat(&format!("sys_{}", w.first().copied().unwrap_or("?")), 1);
+        out.op(op, &r);
+    }
+}
+
+/// an unsolicited datagram: plain header (flags, session id, counter, optional node ids), protocol
+/// header (exchange flags, opcode, exchange id, protocol id), 8 bytes of status-report-like payload
+fn gen_datagram(r: &mut Rng) -> String {
+    let mut b: Vec<u8> = Vec::new();
+    let dsiz = *r.pick(&[0u8, 1, 1, 2]);
+    let src = r.chance(1, 3);
+    b.push(dsiz | if src { 0x04 } else { 0 });
+    let sess: u16 = if r.chance(2, 3) { 0 } else { r.range(1, 65535) as u16 };
+    b.extend_from_slice(&sess.to_le_bytes());
+    b.push(0);
+    b.extend_from_slice(&(r.below(1 << 32) as u32).to_le_bytes());
+    if src {
+        b.extend_from_slice(&r.next().to_le_bytes());
+    }
+    match dsiz {
+        1 => b.extend_from_slice(&r.next().to_le_bytes()),
+        2 => b.extend_from_slice(&(r.below(65536) as u16).to_le_bytes()),
+        _ => {}
+    }
+    // exchange flags: I=1, A=2, R=4; never a new-session request (opcodes 0x20 / 0x30 excluded)
+    let xf = *r.pick(&[0u8, 0, 1, 2, 4, 5, 6]);
+    b.push(xf);
+    b.push(*r.pick(&[0x40u8, 0x40, 0x10, 0x21, 0x22, 0x31, 0x02, 0x05]));
+    b.extend_from_slice(&(r.below(65536) as u16).to_le_bytes());
+    b.extend_from_slice(&(*r.pick(&[0u16, 0, 1])).to_le_bytes());
+    if xf & 2 != 0 {
+        b.extend_from_slice(&(r.below(1 << 32) as u32).to_le_bytes());
+    }
+    b.extend_from_slice(&[1, 0, 0, 0, 0, 0, 4, 0]);
+    crate::proto::hex(&b)
+}
+
+pub fn gen(a: &Args) -> String {
+    let mut r = Rng::new(a.seed);
+    let mut out = Out::default();
+    out.buf.push_str(&format!("#rule {}\n", RULE));
+    let n_cases = if a.thorough { 60000 } else { 8000 };
+    for id in 0..n_cases {
+        let mut cr = r.fork();
+        let len = if a.thorough { cr.range(5, 150) } else { cr.range(5, 60) } as usize;
+        out.case(id, "tab");
+        gen_case(&mut cr, &mut out, len);
+    }
+    // system level: unsolicited datagrams between two real nodes
+    let n_sys = if a.thorough { 400 } else { 40 };
+    for id in 0..n_sys {
+        let mut cr = r.fork();
+        let mut ops = Vec::new();
+        for _ in 0..cr.range(1, 3) {
+            ops.push(format!("inj {} {} {}", cr.below(2), cr.below(2), gen_datagram(&mut cr)));
+            ops.push(format!("run {}", *cr.pick(&[10u64, 100, 1000])));
+        }
+        ops.push("run 2000".into());
+        out.case(n_cases + id, "sys");
+        run_sys(&mut out, &ops);
+    }
+    out.finish()
+}
+
+pub fn replay(a: &Args) -> String {
+    let text = std::fs::read_to_string(a.input.as_ref().expect("--in")).expect("read input");
+    let mut out = Out::default();
+    for c in parse_cases(&text) {
+        if c.kind.starts_with("sys") {
+            out.case(c.id, &c.kind);
+            run_sys(&mut out, &c.ops);
+        } else {
+            tc::run_case(&mut out, &c);
+        }
+    }
+    out.finish()
 }
